@@ -539,7 +539,9 @@ func c10MapOf(pairs [][]interface{}) map[string]interface{} {
 		case float64:
 			v = int(x)
 		case string:
-			if t, err := time.Parse(time.RFC3339, x); err == nil {
+			if strings.HasPrefix(x, "expr:") { // SQL expression value: `col` + 1000
+				v = gorm.Expr("`"+strings.TrimPrefix(x, "expr:")+"` + ?", 1000)
+			} else if t, err := time.Parse(time.RFC3339, x); err == nil {
 				v = t
 			}
 		}
@@ -598,9 +600,9 @@ func c10Exec(db *gorm.DB, typ reflect.Type, c *c10Case, extra func(*gorm.DB) *go
 	case "updcols_map":
 		return tx.Model(model()).UpdateColumns(c10MapOf(c.Map))
 	case "update1":
-		return tx.Model(model()).Update(fmt.Sprint(c.Map[0][0]), c.Map[0][1])
+		return tx.Model(model()).Update(fmt.Sprint(c.Map[0][0]), c10MapOf(c.Map[:1])[fmt.Sprint(c.Map[0][0])])
 	case "updcol1":
-		return tx.Model(model()).UpdateColumn(fmt.Sprint(c.Map[0][0]), c.Map[0][1])
+		return tx.Model(model()).UpdateColumn(fmt.Sprint(c.Map[0][0]), c10MapOf(c.Map[:1])[fmt.Sprint(c.Map[0][0])])
 	case "save":
 		return tx.Save(row(0).Interface())
 	case "create":
@@ -844,7 +846,7 @@ func c10Expected(c *c10Case, outs []json.RawMessage) (c10Obs, string) {
 }
 
 // c10GenMap: keys spelled as field name / column / unknown, values zero / non-zero / nil
-func c10GenMap(rng *rand.Rand, sch *schema.Schema, s c10Sch, wild bool, single bool, salt int, r *Result) [][]interface{} {
+func c10GenMap(rng *rand.Rand, sch *schema.Schema, s c10Sch, wild bool, single bool, salt int, r *Result, expr bool) [][]interface{} {
 	out := [][]interface{}{}
 	used := map[string]bool{}
 	n := 1 + rng.Intn(4)
@@ -893,6 +895,9 @@ func c10GenMap(rng *rand.Rand, sch *schema.Schema, s c10Sch, wild bool, single b
 			if val == "T" {
 				val = c10GivenTime
 			}
+		}
+		if expr && (f.Kind == "int" || f.Kind == "i64") && pf.DBName != "" && !(pf.AutoUpdateTime > 0) && rng.Intn(5) == 0 {
+			vk, val = "expr", "expr:"+pf.DBName
 		}
 		if r != nil {
 			r.H("c10.map.key", kind)
@@ -949,10 +954,10 @@ func genC10Case(rng *rand.Rand, db *gorm.DB, wild bool, r *Result) (*c10Case, *s
 			}
 		}
 		single := c.Path == "update1" || c.Path == "updcol1"
-		c.Map = c10GenMap(rng, sch, s, wild, single, 7, r)
+		c.Map = c10GenMap(rng, sch, s, wild, single, 7, r, strings.HasPrefix(c.Path, "upd"))
 		if c.Path == "create_maps" {
 			for i, n := 0, 1+rng.Intn(3); i < n; i++ {
-				c.MapRows = append(c.MapRows, c10GenMap(rng, sch, s, wild, false, 3+i, nil))
+				c.MapRows = append(c.MapRows, c10GenMap(rng, sch, s, wild, false, 3+i, nil, false))
 			}
 		}
 		return c, sch, typ
